@@ -19,6 +19,7 @@ import (
 	"strings"
 	"sync"
 
+	"github.com/sylabs/sif/v2/pkg/integrity"
 	"github.com/sylabs/sif/v2/pkg/sif"
 )
 
@@ -202,10 +203,97 @@ func concStress(g *Gen, img []byte, v VOpts, dir string) string {
 		close(start)
 		wg.Wait()
 		g.stats["conc:queries"] += nG * 2 * len(qs)
+		if diff == "" {
+			diff = sharedVerifier(g, f, v, nG, backend)
+		}
 		closeF()
 		if diff != "" {
 			return diff
 		}
+	}
+	return ""
+}
+
+// canonResult renders one verification result the way doVerify does.
+func canonResult(r integrity.VerifyResult) string {
+	u := getUniverse()
+	var ids []string
+	for _, d := range r.Verified() {
+		ids = append(ids, fmt.Sprint(d.ID()))
+	}
+	var ks []int
+	for _, k := range r.Keys() {
+		ks = append(ks, u.dsseIndex(k))
+	}
+	sort.Ints(ks)
+	e := ""
+	if r.Error() != nil {
+		e = ierrClass(r.Error())
+	}
+	return fmt.Sprintf("sig=%d verified=%s keys=%v ent=%d err=%s", r.Signature().ID(), strings.Join(ids, ","), ks, u.pgpIndex(r.Entity()), e)
+}
+
+// sharedVerifier: ONE integrity.Verifier value used by several goroutines at once (Verify and the
+// two listings).  Every call must report what the same call reports alone: the results handed
+// to the callback, taken together, are n copies of the solo results.
+func sharedVerifier(g *Gen, f *sif.FileImage, v VOpts, n int, backend string) string {
+	var mu sync.Mutex
+	var held []integrity.VerifyResult
+	opts := append(v.build(), integrity.OptVerifyCallback(func(r integrity.VerifyResult) bool {
+		mu.Lock()
+		held = append(held, r)
+		mu.Unlock()
+		return false
+	}))
+	ver, err := integrity.NewVerifier(f, opts...)
+	if err != nil {
+		return ""
+	}
+	soloErr := ver.Verify()
+	var solo []string
+	for _, r := range held {
+		solo = append(solo, canonResult(r))
+	}
+	sort.Strings(solo)
+	soloAny, _ := ver.AnySignedBy()
+	held = nil
+	errs := make([]error, n)
+	anys := make([][][]byte, n)
+	var wg sync.WaitGroup
+	start := make(chan struct{})
+	for k := 0; k < n; k++ {
+		wg.Add(1)
+		go func(k int) {
+			defer wg.Done()
+			<-start
+			errs[k] = ver.Verify()
+			anys[k], _ = ver.AnySignedBy()
+		}(k)
+	}
+	close(start)
+	wg.Wait()
+	g.stats["conc:shared-verifier-calls"] += n
+	for k := range errs {
+		if (errs[k] == nil) != (soloErr == nil) {
+			return fmt.Sprintf("one Verifier shared by %d goroutines on a %s handle: Verify returned %v, alone it returns %v", n, backend, errs[k], soloErr)
+		}
+		if fmt.Sprint(anys[k]) != fmt.Sprint(soloAny) {
+			return fmt.Sprintf("one Verifier shared by %d goroutines on a %s handle: AnySignedBy returned %x, alone %x", n, backend, anys[k], soloAny)
+		}
+	}
+	var got []string
+	for _, r := range held {
+		got = append(got, canonResult(r))
+	}
+	sort.Strings(got)
+	var want []string
+	for k := 0; k < n; k++ {
+		want = append(want, solo...)
+	}
+	sort.Strings(want)
+	if strings.Join(got, "\n") != strings.Join(want, "\n") {
+		return fmt.Sprintf("one Verifier shared by %d goroutines on a %s handle: the results reported to the callback are not %d copies of the solo results\n alone: %s\n concurrent: %s",
+			n, backend, n, firstDiffLine(strings.Join(want, "\n"), strings.Join(got, "\n")), firstDiffLine(strings.Join(got, "\n"), strings.Join(want, "\n")))
 	}
 	return ""
 }
